@@ -130,7 +130,11 @@ def gen_pos(rng, n_ops):
                 return rng.choice(live)
             return 999
 
-        if r < 0.25 or (not live and r < 0.5):
+        if not live and r < 0.5:
+            # an empty queue: half of the time something is put in, by either route
+            # (a positional insert into an empty queue is a case of its own)
+            r = 0.0 if r < 0.3 else 0.3
+        if r < 0.25:
             o = next(nxt)
             p = rng.choice(PRIS)
             if rng.random() < 0.6:
@@ -233,7 +237,14 @@ def oracle_pq(lines, outs, tags):
                 exp = "err ValueError"
             else:
                 if len(m) > 1:
-                    return None  # duplicates: not judged by this oracle
+                    # the same object queued more than once: the answer says which entry went
+                    tags.add("duplicate-object")
+                    cands = [e for e in m if out == f"pri {e[0]}"]
+                    if not cands:
+                        return idx, sorted(f"pri {e[0]}" for e in m), out, "remove answered with the priority of no live match"
+                    if len(cands) > 1:
+                        return None  # same object twice at one priority: which one went is not observable
+                    m = cands
                 exp = f"pri {m[0][0]}"
                 q.items.remove(m[0])
                 if not q.items:
@@ -252,6 +263,11 @@ def oracle_pq(lines, outs, tags):
                 ok = {f"item {e[0]} {e[2]}": e for e in m}
                 if out not in ok:
                     return idx, sorted(ok), out, "find returned something that is not a live match"
+                if len(ok) < len(m):
+                    if rm:
+                        return None  # two matches indistinguishable by (priority, object)
+                elif len(m) > 1:
+                    tags.add("duplicate-object")
                 if rm:
                     q.items.remove(ok[out])
                     if not q.items:
@@ -271,6 +287,8 @@ def oracle_pq(lines, outs, tags):
                 ok = {f"obj {e[2]}": e for e in m}
                 if out not in ok:
                     return idx, sorted(ok), out, "reschedule returned something that is not a live match"
+                if len(ok) < len(m):
+                    return None  # which of two entries of one object was re-keyed is not observable here
                 if ok[out][0] != p:
                     tags.add("reschedule-changed")
                 ok[out][0] = p
@@ -618,7 +636,8 @@ def run(ctx):
     # long histories and a duplicate-object stream (model-vs-code only meaningful there)
     explore(ctx, [gen_pq(rng, 400) for _ in range(n_long)], label="long: ")
     explore(ctx, [gen_pos(rng, 400) for _ in range(n_long)], label="long: ")
-    explore(ctx, [gen_pq(rng, 30, dup=True) for _ in range(n_pq // 4)], label="duplicates: ", oracle=False)
+    # the same object queued more than once: judged as far as the answers identify the entry
+    explore(ctx, [gen_pq(rng, 30, dup=True) for _ in range(n_pq // 4)], label="duplicates: ")
     if ctx.thorough():
         batch = []
         n = 0
